@@ -726,10 +726,10 @@ def generate(rng, tier, mult):
         cases.append(pair(a, b, "corner"))
     if tier == "quick":
         ts = enum_quick()
-        n_rand, n_rel, n_pipe = 1800 * mult, 1500 * mult, 500 * mult
+        n_rand, n_rel, n_pipe = 3000 * mult, 2500 * mult, 800 * mult
     else:
         ts = enum_full()
-        n_rand, n_rel, n_pipe = 40000 * mult, 30000 * mult, 6000 * mult
+        n_rand, n_rel, n_pipe = 60000 * mult, 50000 * mult, 10000 * mult
     cases += [pair(a, b, "all-depth1") for a in ts for b in ts]
     if tier != "quick":
         t2 = enum_depth2()
@@ -763,37 +763,123 @@ def distribution(c):
 
 
 # ------------------------------------------------------------------ known findings
+# Classification only (the verdict is Coq's spec_ok): a Python transcription of the reference, used to decide whether
+# a failing case is explained by a listed finding.
+def _cls_le(a, b):
+    return a == b or (a == "bool" and b == "int")
+
+
+def _org_le(a, b):
+    return a == b or (a == "odict" and b == "dict")
+
+
+def ref_sub(A, B):
+    ka, kb = A[0], B[0]
+    if kb in ("any", "noann", "unres") or ka in ("noann", "unres"):
+        return True
+    if ka == "union":
+        return all(ref_sub(a, B) for a in A[1])
+    if ka == "annot":
+        return ref_sub(A[1], B)
+    if ka == "var":
+        if A[2] is not None:
+            return ref_sub(A[2], B)
+        if A[3]:
+            return all(ref_sub(c, B) for c in A[3])
+    if kb == "union":
+        return any(ref_sub(A, b) for b in B[1])
+    if kb == "annot":
+        return ref_sub(A, B[1])
+    if kb == "var":
+        if B[2] is None and not B[3]:
+            return True
+        return (B[2] is not None and ref_sub(A, B[2])) or any(ref_sub(A, c) for c in B[3])
+    if ka == "cls" and kb == "cls":
+        return _cls_le(A[1], B[1])
+    if ka in ("bare", "gen") and kb in ("bare", "gen"):
+        if not _org_le(A[1], B[1]):
+            return False
+        if ka == "bare" or kb == "bare":
+            return True
+        return len(A[2]) == len(B[2]) and all(ref_sub(x, y) for x, y in zip(A[2], B[2]))
+    if ka == "array" and kb == "array":
+        return ref_sub(A[1], B[1])
+    if ka == "array" and kb in ("gen", "bare"):
+        return ref_sub(NDOBJ, B)
+    if kb == "array" and ka in ("gen", "bare"):
+        return ref_sub(A, NDOBJ)
+    return False
+
+
+def _vars_unknown(t):
+    """TypeVars replaced by a missing annotation (= unknown): what 'a TypeVar source is always accepted' amounts to."""
+    k = t[0]
+    if k == "var":
+        return NOANN
+    if k == "union":
+        return ["union", [_vars_unknown(x) for x in t[1]]]
+    if k == "gen":
+        return ["gen", t[1], [_vars_unknown(x) for x in t[2]]]
+    if k == "annot":
+        return ["annot", _vars_unknown(t[1]), t[2]]
+    if k == "array":
+        return ["array", _vars_unknown(t[1])]
+    return t
+
+
 def _is_obj_array(t):
     return t[0] == "array" or t == NDOBJ or (t[0] == "annot" and _is_obj_array(t[1]))
 
 
-def _mapped_and_whole(c, f, g, p):
-    if f["ms"] is None or p not in [n for n, _ in f["ms"][1]]:
-        return False
-    if g["ms"] is None:
-        return True
-    ax = [a for n, a in g["ms"][0] if n == p]
-    return not ax or None in ax[0]
+def _spec_edges(c):
+    """(source, target, reduced, f) for every edge the property speaks about (mirrors TySpec.spec_edges)."""
+    out = []
+    for f in c["fs"]:
+        for g in c["fs"]:
+            for p, t in g["params"]:
+                if p != f["out"] or t is None:
+                    continue
+                mapped = False
+                if f["ms"] is not None:
+                    spec = [ax for n, ax in f["ms"][1] if n == p]
+                    if spec:
+                        mapped = True
+                        in_idx = {a for _, ax in f["ms"][0] for a in ax if a is not None}
+                        if any(a is not None and a not in in_idx for a in spec[0]):
+                            continue  # internal shape: no statement
+                whole = True
+                if g["ms"] is not None:
+                    ax = [a for n, a in g["ms"][0] if n == p]
+                    whole = (not ax) or (None in ax[0])
+                red = mapped and whole and f["ret"][0] not in ("noann", "unres")
+                out.append((["array", f["ret"]] if red else f["ret"], t, red, f))
+    return out
 
 
 def finding_id(c, impl_obs, kind):
     if c["kind"] == "pair":
-        if has_var(c["a"]) and impl_obs == ["ok", ["bool", 1]]:
+        # accepted although the reference rejects, and the reference accepts once the TypeVars of the source are unknown
+        if impl_obs == ["ok", ["bool", 1]] and has_var(c["a"]) and ref_sub(_vars_unknown(c["a"]), c["b"]):
             return "typevar-source-accepted"
         return None
-    if not c["v"]:
+    if not c["v"] or impl_obs not in (["ok", ["none"]], ["err", "TypeError"]):
         return None
     accepted = impl_obs == ["ok", ["none"]]
-    for f in c["fs"]:
-        for g in c["fs"]:
-            for p, t in g["params"]:
-                if p == f["out"] and t is not None:
-                    if _mapped_and_whole(c, f, g, p) and _is_obj_array(f["ret"]):
-                        return "reduced-array-output-not-wrapped"
+    edges = _spec_edges(c)
+    unwrapped = [e for e in edges if e[2] and _is_obj_array(e[3]["ret"])]      # region of reduced-array-output-not-wrapped
+    rest = [e for e in edges if not (e[2] and _is_obj_array(e[3]["ret"]))]
     if accepted:
-        for f in c["fs"]:
-            if has_var(f["ret"]) and any(p == f["out"] and t is not None for g in c["fs"] for p, t in g["params"]):
-                return "typevar-source-accepted"
+        # every edge outside the regions must be compatible once TypeVar sources are unknown
+        if not all(ref_sub(_vars_unknown(a), b) for a, b, _, _ in rest):
+            return None
+        if any(not ref_sub(a, b) for a, b, _, _ in unwrapped):
+            return "reduced-array-output-not-wrapped"
+        if any(has_var(a) and not ref_sub(a, b) for a, b, _, _ in rest):
+            return "typevar-source-accepted"
+        return None
+    # rejected although every edge is compatible: only the unwrapped reduction can explain it
+    if unwrapped and all(ref_sub(a, b) for a, b, _, _ in edges):
+        return "reduced-array-output-not-wrapped"
     return None
 
 
